@@ -114,6 +114,10 @@ def jobs(tier, seed):
         out.append(('agree.rx.v1.%s' % mod, 'h_agree_rx', dict(ver=1, mod=mod, nope=False, legacy=False, known='exclude' if excl else None)))
         if excl: out.append(('known:%s' % K_AB, 'h_agree_rx', dict(ver=1, mod=mod, nope=False, legacy=False, known='only')))
     out.append(('agree.rx.v1.nope', 'h_agree_rx', dict(ver=1, mod='ModGMSK', nope=True, legacy=False)))
+    # legacy=True is what the transceiver always passes; it only means something on version 0
+    out.append(('agree.rx.v1.nope.legacy-flag', 'h_agree_rx', dict(ver=1, mod='ModGMSK', nope=True, legacy=True)))
+    out.append(('agree.rx.v1.ModGMSK.legacy-flag', 'h_agree_rx', dict(ver=1, mod='ModGMSK', nope=False, legacy=True)))
+    out.append(('agree.rx.v1.Mod8PSK.legacy-flag', 'h_agree_rx', dict(ver=1, mod='Mod8PSK', nope=False, legacy=True)))
     for code in range(16):
         out.append(('burstlen.mod=%d' % code, 'h_burst_len', dict(code=code)))
     return out
@@ -309,4 +313,4 @@ def h_agree_rx(ctx, ver, mod, nope, legacy, known=None):
     else:
         check_seq_eq(ctx, 'soft-bits', raw_of(pdu['soft-bits']), [127 - b for b in items_of(m.burst)])
     if ver == 0:
-        ctx.check('pad.len', len(pdu['pad']) == (2 if legacy else 0))
+        ctx.check('pad.len', len(pdu['pad']) == (2 if legacy and ver == 0 else 0))
